@@ -223,6 +223,16 @@ def run(analysis: Analysis, tier: str) -> RuleResult:
     c08.confirmation_rule(analysis, res, "C05-R5")
     c08.lookup_rule(analysis, res, "C05-R5", "C05-R5")
     c08.accept_rule(analysis, res, "C05-R5")
+    from . import c03
+
+    class _L:
+        extra = res.extra
+
+        @staticmethod
+        def add(rule, *a, **kw):
+            res.add("C05-L:" + rule, *a, **kw)
+
+    c03.header_rules(analysis, _L)
     # a withheld reply is still "the reply the protocol prescribes": nothing may silently drop or reorder it
     c08.queue_access(analysis, res, "C05-R5")
     need = {("req", None), ("set", None), ("internal", "I_CONFIG"), ("internal", "I_TIME"), ("internal", "I_ID_REQUEST"), ("internal", "I_GATEWAY_READY"), ("stream", "ST_FIRMWARE_CONFIG_REQUEST"), ("stream", "ST_FIRMWARE_REQUEST")}
